@@ -37,6 +37,37 @@ pub fn dispatch(k: &str, t: &[&str]) -> Option<String> {
                     crate::ingest::raw_val::RawVal::Float(f) => format!("f:{}", f.0.to_bits()), crate::ingest::raw_val::RawVal::Str(s) => format!("s:{}", hex(s.as_bytes())) }).collect::<Vec<_>>().join(",") }),
             })
         }
+        "table_buffer_rows" => {
+            // one token per row: col=i:5,col=f:<bits>,col=n,col=s:<hex>  ("-" = empty row)
+            use locustdb_serialization::event_buffer::TableBuffer;
+            let mut tb = TableBuffer::default();
+            for row in t {
+                let mut items: Vec<(String, AnyVal)> = vec![];
+                if *row != "-" {
+                    for kv in row.split(',') {
+                        let (c, x) = kv.split_once('=').unwrap();
+                        let v = if let Some(r) = x.strip_prefix("i:") { AnyVal::Int(num(r)) }
+                            else if let Some(r) = x.strip_prefix("f:") { AnyVal::Float(f64::from_bits(num::<u64>(r))) }
+                            else if let Some(r) = x.strip_prefix("s:") { AnyVal::Str(unsafe { String::from_utf8_unchecked(unhex(if r.is_empty() { "-" } else { r })) }) }
+                            else { AnyVal::Null };
+                        items.push((c.to_string(), v));
+                    }
+                }
+                tb.push_row_and_timestamp(items);
+            }
+            let mut cs: Vec<(&String, &WireColumnBuffer)> = tb.columns().collect();
+            cs.sort_by(|a, b| a.0.cmp(b.0));
+            let parts: Vec<String> = cs.iter().map(|(c, cb)| match &cb.data {
+                ColumnData::Empty => format!("{}:Empty", c),
+                ColumnData::Dense(v) => format!("{}:Dense:{}", c, fmt_f64_bits(v)),
+                ColumnData::I64(v) => format!("{}:I64:{}", c, fmt_vec(v)),
+                ColumnData::Sparse(v) => format!("{}:Sparse:{}:{}", c, fmt_vec(&v.iter().map(|x| x.0).collect::<Vec<_>>()), fmt_f64_bits(&v.iter().map(|x| x.1).collect::<Vec<_>>())),
+                ColumnData::SparseI64(v) => format!("{}:SparseI64:{}:{}", c, fmt_vec(&v.iter().map(|x| x.0).collect::<Vec<_>>()), fmt_vec(&v.iter().map(|x| x.1).collect::<Vec<_>>())),
+                ColumnData::String(v) => format!("{}:String:{}", c, v.iter().map(|s| hex(s.as_bytes())).collect::<Vec<_>>().join(",")),
+                ColumnData::Mixed(_) => format!("{}:Mixed", c),
+            }).collect();
+            Some(format!("{} {}", tb.len(), parts.join(" ")))
+        }
         "wal_segment_roundtrip" => {
             // <id> then the same table tokens as event_buffer_roundtrip; goes through disk_store::wal_segment::WalSegment
             use crate::disk_store::wal_segment::WalSegment;
